@@ -1,6 +1,159 @@
 import TantivyModel.Driver.Proto
+import TantivyModel.Model.AggMerge
+/-!
+Line protocol of the C14 model (sums are exact integers: `M := Int`).
+
+  C14 spec   <req> <parts>   evalAgg over all documents of all parts
+  C14 whole  <req> <parts>   finalize (collect all documents)
+  C14 merged <req> <parts>   finalize (mergeFruits (parts.map collectSeg))   (with segment truncation)
+  C14 limit  <n> <req> <parts>   finalizeGuarded n on the merged tree: `ok <res>` | `err <count>`
+  C14 defaults <size|_> <segment_size|_> <min_doc_count|_>   size, segment_size, min_doc_count, default bucket limit
+  C14 histpos <interval> <offset> <v>      bucket position
+  C14 rangeidx <cuts> <v>                  range bucket index
+
+<req>   comma separated prefix code:  N | B,<a>,<b> | M,f,miss | T,f,miss,size,segsize,mdc,ord,<sub>
+        | H,f,interval,offset,mdc,hlo,hhi,elo,ehi,<sub> | R,f,n,c1,…,cn,<sub> | F,f,v,<sub>
+        (`_` = absent optional; ord ∈ cd,ca,ka,kd)
+<parts> parts separated by `|` (`-` = a part without documents), documents by `;`,
+        a document is `e` (no field) or `f=v,v,…` items separated by `/`
+-/
 namespace TantivyModel.Driver.C14
-/-- stub: the model for C14 is not built yet -/
+open TantivyModel TantivyModel.Agg
+
+def optInt (s : String) : Option (Option Int) :=
+  if s == "_" then some Option.none else s.toInt?.map some
+
+def pairOpt (a b : Option Int) : Option (Int × Int) :=
+  match a, b with
+  | some x, some y => some (x, y)
+  | _, _ => Option.none
+
+def parseOrder : String → Option Order
+  | "cd" => some .countDesc | "ca" => some .countAsc | "ka" => some .keyAsc | "kd" => some .keyDesc
+  | _ => Option.none
+
+/-- prefix parser with fuel (the token count bounds the recursion) -/
+def parseReq : Nat → List String → Option (Req × List String)
+  | 0, _ => Option.none
+  | fuel + 1, toks =>
+    match toks with
+    | "N" :: rest => some (.none, rest)
+    | "B" :: rest => do
+      let (a, r1) ← parseReq fuel rest
+      let (b, r2) ← parseReq fuel r1
+      pure (.both a b, r2)
+    | "M" :: f :: m :: rest => do
+      let f ← f.toNat?
+      let m ← optInt m
+      pure (.metric f m, rest)
+    | "T" :: f :: m :: size :: seg :: mdc :: ord :: rest => do
+      let f ← f.toNat?
+      let m ← optInt m
+      let size ← size.toNat?
+      let seg ← seg.toNat?
+      let mdc ← mdc.toNat?
+      let ord ← parseOrder ord
+      let (sub, r1) ← parseReq fuel rest
+      pure (.terms ⟨f, m, size, seg, mdc, ord⟩ sub, r1)
+    | "H" :: f :: iv :: off :: mdc :: hlo :: hhi :: elo :: ehi :: rest => do
+      let f ← f.toNat?
+      let iv ← iv.toInt?
+      if iv ≤ 0 then Option.none
+      let off ← off.toInt?
+      let mdc ← mdc.toNat?
+      let hlo ← optInt hlo
+      let hhi ← optInt hhi
+      let elo ← optInt elo
+      let ehi ← optInt ehi
+      let (sub, r1) ← parseReq fuel rest
+      pure (.hist ⟨f, iv, off, mdc, pairOpt hlo hhi, pairOpt elo ehi⟩ sub, r1)
+    | "R" :: f :: n :: rest => do
+      let f ← f.toNat?
+      let n ← n.toNat?
+      if rest.length < n then Option.none
+      let cuts ← (rest.take n).mapM (fun s => s.toInt?)
+      let (sub, r1) ← parseReq fuel (rest.drop n)
+      pure (.range f cuts sub, r1)
+    | "F" :: f :: v :: rest => do
+      let f ← f.toNat?
+      let v ← v.toInt?
+      let (sub, r1) ← parseReq fuel rest
+      pure (.filter f v sub, r1)
+    | _ => Option.none
+
+def parseReqStr (s : String) : Option Req :=
+  let toks := s.splitOn ","
+  match parseReq (toks.length + 1) toks with
+  | some (r, []) => some r
+  | _ => Option.none
+
+def parseDoc (s : String) : Option Doc :=
+  if s == "e" then some [] else
+  (s.splitOn "/").mapM fun item =>
+    match item.splitOn "=" with
+    | [f, vs] => do
+      let f ← f.toNat?
+      let vs ← (vs.splitOn ",").mapM (fun v => v.toInt?)
+      pure (f, vs)
+    | _ => Option.none
+
+def parseParts (s : String) : Option (List (List Doc)) :=
+  (s.splitOn "|").mapM fun p =>
+    if p == "-" then some [] else (p.splitOn ";").mapM parseDoc
+
+def showOpt : Option Int → String
+  | some v => toString v
+  | Option.none => "_"
+
+def showBuckets {V : Type} (sh : V → String) (l : List (Int × Nat × V)) : String :=
+  ";".intercalate (l.map fun b => s!"{b.1}:{b.2.1}:{sh b.2.2}")
+
+def showRes : (r : Req) → Res Int r → String
+  | .none, _ => "N"
+  | .both a b, x => "(" ++ showRes a x.1 ++ ")(" ++ showRes b x.2 ++ ")"
+  | .metric _ _, x => s!"M[{x.count},{x.sum},{x.sumsq},{showOpt x.min},{showOpt x.max}]"
+  | .terms _ sub, x => s!"T[{x.2.1},{x.2.2};" ++ showBuckets (showRes sub) x.1 ++ "]"
+  | .hist _ sub, x => "L[" ++ showBuckets (showRes sub) x ++ "]"
+  | .range _ _ sub, x => "L[" ++ showBuckets (showRes sub) x ++ "]"
+  | .filter _ _ sub, x => s!"F[{x.1}:" ++ showRes sub x.2 ++ "]"
+
+def merged (r : Req) (parts : List (List Doc)) : Inter Int r :=
+  mergeFruits r (parts.map (collectSeg r))
+
 def handle : List String → String
+  | ["spec", rq, ps] =>
+    match parseReqStr rq, parseParts ps with
+    | some r, some parts => showRes r (evalAgg Int r parts.flatten)
+    | _, _ => "bad-op"
+  | ["whole", rq, ps] =>
+    match parseReqStr rq, parseParts ps with
+    | some r, some parts => showRes r (finalize r (collect r parts.flatten))
+    | _, _ => "bad-op"
+  | ["merged", rq, ps] =>
+    match parseReqStr rq, parseParts ps with
+    | some r, some parts => showRes r (finalize r (merged r parts))
+    | _, _ => "bad-op"
+  | ["limit", n, rq, ps] =>
+    match n.toNat?, parseReqStr rq, parseParts ps with
+    | some n, some r, some parts =>
+      match finalizeGuarded n r (merged r parts) with
+      | .ok res => "ok " ++ showRes r res
+      | .error c => s!"err {c}"
+    | _, _, _ => "bad-op"
+  | ["defaults", size, seg, mdc] =>
+    match optInt size, optInt seg, optInt mdc with
+    | some size, some seg, some mdc =>
+      let p := TermsP.ofRequest 0 Option.none (size.map Int.toNat) (seg.map Int.toNat) (mdc.map Int.toNat) Option.none
+      s!"{p.size} {p.segSize} {p.minDocCount} {Gen.AGG_DEFAULT_BUCKET_LIMIT}"
+    | _, _, _ => "bad-op"
+  | ["histpos", iv, off, v] =>
+    match iv.toInt?, off.toInt?, v.toInt? with
+    | some iv, some off, some v => if iv ≤ 0 then "bad-op" else toString (histPos iv off v)
+    | _, _, _ => "bad-op"
+  | ["rangeidx", cuts, v] =>
+    match Proto.intList cuts, v.toInt? with
+    | some cuts, some v => toString (rangeIdx cuts v)
+    | _, _ => "bad-op"
   | _ => "bad-op"
+
 end TantivyModel.Driver.C14
